@@ -1,8 +1,10 @@
 package work
 
 import (
+	"bufio"
 	"bytes"
 	"fmt"
+	"io"
 	"math/rand"
 	"reflect"
 	"strings"
@@ -54,6 +56,7 @@ func (c11) Cases(tier string, seed int64, kf *KnownFindings) []Case {
 		add(Case{Kind: "rand", K: i % len(c11kinds), Seed: Mix(seed, i), Count: per})
 	}
 	add(Case{Kind: "oneshot", Count: 1})
+	add(Case{Kind: "streams", Count: len(c11kinds) * 8})
 	return cs
 }
 
@@ -307,6 +310,10 @@ func (c11) Run(c Case, env *Env) Result {
 		c11oneshot(c, env, &res)
 		return res
 	}
+	if c.Kind == "streams" {
+		c11streams(c, env, &res)
+		return res
+	}
 	w := newC11World()
 	if !sameNames(w.nm, w.nmExtracted) {
 		// the very first encodes over the freshly extracted (complete) name map wrote to it
@@ -508,4 +515,98 @@ func c11oneshot(c Case, env *Env, res *Result) {
 	}
 	res.NT = append(res.NT, Hash64("oneshot"), Hash64("oneshot2"))
 	res.Count("one_shot_call_sequences", 40)
+}
+
+// c11streams: the stream entry points with the CALLER'S objects used again:
+//   - a second message started with WriteTo / Reset on the very writer object the instance already has
+//     (one connection, one buffer) must be the bytes a fresh instance writes;
+//   - a one-shot decode between two reads of a caller-owned *bufio.Reader must leave that reader alone:
+//     the next read of the stream - by the used instance and by the caller - gives what it would have given.
+func c11streams(c Case, env *Env, res *Result) {
+	w := newC11World()
+	pools := [3]hessian.Pool{hessian.NewEncoderPool(2, w.nm), hessian.NewDecoderPool(2, w.tm), hessian.NewSerializerPool(2, w.tm, w.nm)}
+	lo, hi := subRange(c)
+	for j := lo; j < hi; j++ {
+		kind, sc := j%len(c11kinds), j/len(c11kinds)
+		cc := c
+		cc.Sub = j
+		res.Evals++
+		res.NT = append(res.NT, Hash64(fmt.Sprint("streams", j)))
+		feats := []string{"instance=" + c11kinds[kind], "caller-objects-reused"}
+		viol := func(class, detail string) {
+			env.Viol(res, Violation{Class: class, Features: feats, Detail: fmt.Sprintf("%s: %s", c11kinds[kind], detail), Case: cc})
+		}
+		in, fresh := w.newInst(kind, &pools), w.newInst(freshKind(kind), &pools)
+		v1, v2 := w.values[(sc*3)%len(w.values)], w.values[(sc*5+1)%len(w.values)]
+		pi, _ := Guard(func() {
+			if sc%2 == 0 {
+				// ---- same writer object for two messages
+				buf, fbuf := &bytes.Buffer{}, &bytes.Buffer{}
+				var e1, e2 error
+				if in.ser != nil {
+					in.ser.WriteTo(buf, v1)
+					in.ser.Write(v2)
+				} else {
+					in.enc.WriteTo(buf, v1)
+					in.enc.WriteObject(v2)
+				}
+				off := buf.Len()
+				if in.ser != nil {
+					e1 = in.ser.WriteTo(buf, v1)
+					e2 = fresh.ser.WriteTo(fbuf, v1)
+				} else if sc%4 == 0 {
+					e1 = in.enc.WriteTo(buf, v1)
+					e2 = fresh.enc.WriteTo(fbuf, v1)
+				} else {
+					in.enc.Reset(buf)
+					e1 = in.enc.WriteObject(v1)
+					fresh.enc.Reset(fbuf)
+					e2 = fresh.enc.WriteObject(v1)
+				}
+				res.Count("second_messages_on_the_same_writer_object", 1)
+				// (same bytes, or same length and same denotation: a multi-entry map may be written in either order)
+				if b1, b2 := buf.Bytes()[off:], fbuf.Bytes(); (e1 != nil) != (e2 != nil) || (!bytes.Equal(b1, b2) && (len(b1) != len(b2) || resultClassEnc(b1, e1, nil, true) != resultClassEnc(b2, e2, nil, true))) {
+					viol("probe-differs:encode", fmt.Sprintf("second message for %s started on the writer object the instance already had: %s (%v); a fresh instance writes %s (%v)", describe(v1), hexClip(buf.Bytes()[off:]), e1, hexClip(fbuf.Bytes()), e2))
+				}
+				return
+			}
+			// ---- a one-shot decode between two reads of a caller-owned bufio.Reader
+			a, b := w.wires[(sc*3)%len(w.wires)], w.wires[(sc*5+1)%len(w.wires)]
+			stream := append(append(append([]byte{}, a...), b...), 0x05, 't', 'r', 'a', 'i', 'l')
+			br := bufio.NewReaderSize(bytes.NewReader(stream), 16+sc*500)
+			oneShot := append(append([]byte{}, w.wires[1]...), 0x04, 't', 'a', 'i', 'l')
+			// the reference: a fresh instance doing the same two stream reads on an identical reader, WITHOUT
+			// the one-shot call in between
+			br2 := bufio.NewReaderSize(bytes.NewReader(stream), 16+sc*500)
+			var got, want interface{}
+			var e1, e2 error
+			if in.ser != nil {
+				in.ser.ReadFrom(br)
+				in.ser.ToObject(oneShot)
+				got, e1 = in.ser.ReadFrom(br)
+				fresh.ser.ReadFrom(br2)
+				want, e2 = fresh.ser.ReadFrom(br2)
+			} else {
+				in.dec.ReadFrom(br)
+				in.dec.Decode(oneShot)
+				got, e1 = in.dec.ReadFrom(br)
+				fresh.dec.ReadFrom(br2)
+				want, e2 = fresh.dec.ReadFrom(br2)
+			}
+			res.Count("one_shot_decodes_between_reads_of_a_caller_owned_bufio_reader", 1)
+			if c1, c2 := resultClassDec(got, e1, nil), resultClassDec(want, e2, nil); c1 != c2 {
+				viol("probe-differs:decode", fmt.Sprintf("second message of a caller-owned *bufio.Reader after a one-shot decode on the same instance: %s; without the one-shot call in between a fresh instance reads %s", c1, c2))
+				return
+			}
+			// what is left of the caller's reader is the caller's
+			rest, _ := io.ReadAll(br)
+			rest2, _ := io.ReadAll(br2)
+			if !bytes.Equal(rest, rest2) {
+				viol("input-modified", fmt.Sprintf("the caller's *bufio.Reader holds %x after the reads; without the one-shot call in between it holds %x", rest, rest2))
+			}
+		})
+		if pi != nil {
+			viol("panic@history", pi.Msg)
+		}
+	}
 }
